@@ -165,6 +165,54 @@ func (w *World) rulesHeader(p *Pkg, m *parseModel, add func(ok bool, rule, inst 
 		}
 	}
 	if !okRem {
+		// form C: the input keeps its header and is read through offsets — a cursor
+		// that starts at len(header). Sound when nothing reads the input below that
+		// offset any more: the parameter is never reassigned, is only used as
+		// len(vector), vector[i] or vector[a:b] after the guard, and each such
+		// expression provably starts at an offset ≥ len(header) (zone analysis)
+		okUse := !assignedIn(info, m.fd.Body, m.param)
+		for _, s := range body[1:] {
+			var stack []ast.Node
+			ast.Inspect(s, func(n ast.Node) bool {
+				if n == nil {
+					stack = stack[:len(stack)-1]
+					return true
+				}
+				if id, ok := n.(*ast.Ident); ok && info.Uses[id] == m.param && len(stack) > 0 {
+					switch par := stack[len(stack)-1].(type) {
+					case *ast.SliceExpr:
+						if par.X != ast.Expr(id) {
+							okUse = false
+						}
+					case *ast.IndexExpr:
+						if par.X != ast.Expr(id) {
+							okUse = false
+						}
+					case *ast.CallExpr:
+						fid, isId := par.Fun.(*ast.Ident)
+						if !isId || fid.Name != "len" {
+							okUse = false
+						} else if _, isB := info.Uses[fid].(*types.Builtin); !isB {
+							okUse = false
+						}
+					default:
+						okUse = false
+					}
+				}
+				stack = append(stack, n)
+				return true
+			})
+		}
+		if okUse {
+			if bf, err := p.analyseBoundsFloor(m.fd, m.param, int64(len(ov.Header)), ifs.End()); err == nil && bf.floorSites > 0 && bf.floorBad == "" {
+				add(true, "R01.header", "ParseVector.header", ifs, fmt.Sprintf("first statement rejects every string not starting with %q; the input is then read through offsets only, and each of the %d index/slice expressions on it provably starts at an offset ≥ %d (zone analysis): the header is not read again", h, bf.floorSites, len(ov.Header)))
+				add(true, "R13.guard", "ParseVector.header", ifs, fmt.Sprintf("an accepted string starts with %q", h))
+				return
+			} else if err == nil && bf.floorBad != "" {
+				fail(body[1], "after the guard the input is not advanced by len(header): "+bf.floorBad)
+				return
+			}
+		}
 		fail(body[1], "after the guard the input is not advanced by exactly len(header)")
 		return
 	}
